@@ -53,7 +53,7 @@ PROPS = {
     'C03': dict(fams=['hash_placement', 'rebase_pairs', 'intra', 'versions', 'crud', 'fault'], views=['obs', 'memo'],
                 oracles=['memo'], filt=lambda k, o: k == 'R' and o in ROOT_OPS,
                 key=lambda ops: sum(o.startswith('hash') for o in ops) >= 2),
-    'C04': dict(fams=['versions', 'rebase_pairs', 'hash_placement', 'intra'], views=['obs'], oracles=[],
+    'C04': dict(fams=['versions', 'rebase_pairs', 'hash_placement', 'intra'], views=['obs'], oracles=['memo'],
                 filt=lambda k, o: k == 'O' or o in ROOT_OPS | EQ_OPS,
                 key=lambda ops: any(o.startswith(('clone', 'to_vector', 'to_list', 'rebase')) for o in ops)),
     'C05': dict(fams=['capacity', 'codec', 'bulk', 'invalid_args'], views=['obs'], oracles=['wellformed'],
